@@ -66,6 +66,13 @@ def specs(rng, tier, wid, nw, env):
                 for pat in pats:
                     k += 1
                     if k % nw == wid: yield ('bin', op, pd, pa, rng.choice(P), pat, rng.choice(['w', 'w', 'w=a', 'w=b', 'a=b']), rng.getrandbits(48))
+    # the exact accessors named by the property: integer_p, fits_*_p, get_si/ui/d/d_2exp (cases shared with C11) and get_prec/set_prec/init2
+    for i in range(4000 if q else 60000):
+        k += 1
+        if k % nw == wid: yield ('getfits', rng.getrandbits(48))
+    for i in range(600 if q else 6000):
+        k += 1
+        if k % nw == wid: yield ('prec', rng.getrandbits(48))
     N = 20000 if q else 300000
     for i in range(N):
         c = rng.random()
@@ -104,6 +111,32 @@ def make_pair(r, pa, pb, pat):
 
 def build(spec, env):
     kind = spec[0]; r = random.Random(spec[-1])
+    if kind == 'getfits':
+        import c11
+        case = c11.build(('f', spec[1]), env)
+        if case is not None: case.tag = ('getfits',) + tuple(case.tag)
+        return case
+    if kind == 'prec':
+        n = r.choice([1, 2, 52, 53, 54, 63, 64, 65, 127, 128, 129, 191, 192, 193, r.randint(1, 4000), 64 * r.randint(1, 60) + r.choice([-1, 0, 1])])
+        n2 = r.choice([1, 53, 64, 65, 128, n - 1 if n > 1 else 1, n + 1, r.randint(1, 3000)])
+        m = rand_mant(r, r.choice([n, n + 64, 30, n + 200])); e = r.randint(-100, 100)
+        ca, a = fcmd('F1', 64 * ((n + 200) // 64 + 2), m, e)
+        cmds = ['c mpf_init2 F2 #%d' % n, 'c mpf_get_prec F2', ca, 'c mpf_set F2 F1', 'c mpf_set_prec F2 #%d' % n2, 'c mpf_get_prec F2', 'gf F2', 'c mpf_set_prec F1 #%d' % n2, 'c mpf_get_prec F1', 'gf F1']
+        def check(rep, n=n, n2=n2, a=a):
+            out = []
+            p1 = int(split_reply(rep[1])[0][0]); p2 = int(split_reply(rep[5])[0][0]); p3 = int(split_reply(rep[8])[0][0])
+            if p1 < n or p1 % 64 or p1 > n + 127: out.append(('mpf_get_prec:after-init2', 'asked %d got %d' % (n, p1)))
+            if p2 < n2 or p2 > n2 + 127 or p3 != p2: out.append(('mpf_get_prec:after-set_prec', 'asked %d got %d / %d' % (n2, p2, p3)))
+            for idx, pp in ((6, min(p1, p2)), (9, p3)):
+                res, p = fval(rep[idx].split()[0])
+                if p != (p2 if idx == 6 else p3): out.append(('mpf_set_prec:precision-field-differs-from-get_prec', 'gf says %d get_prec %d' % (p, p2)))
+                # set_prec truncates to the new precision: the value kept is a truncation of a accurate to the smaller of the precisions involved
+                err = abs(res - a)
+                if a == 0: ok = res == 0
+                else: ok = err < abs(a) * Fraction(2) ** (2 - pp) and abs(res) <= abs(a) and (res < 0) == (a < 0)
+                if not ok: out.append(('mpf_set_prec:value-not-kept', 'n=%d n2=%d idx=%d' % (n, n2, idx)))
+            return out
+        return Case(cmds, check, 8, ('prec', min(n, 300) // 8, min(n2, 300) // 8))
     if kind == 'bin':
         _, op, pd, pa, pb, pat, alias, _s = spec
         ma, ea, mb, eb = make_pair(r, pa, pb, pat)
